@@ -12,15 +12,19 @@ import (
 	"github.com/buildbarn/bb-remote-execution/pkg/filesystem/pool"
 	"github.com/buildbarn/bb-remote-execution/pkg/proto/remoteworker"
 	"github.com/buildbarn/bb-remote-execution/pkg/verifsim/simenv"
+	"github.com/buildbarn/bb-remote-execution/pkg/verifsim/simsync"
 	"github.com/buildbarn/bb-storage/pkg/clock"
 	"github.com/buildbarn/bb-storage/pkg/digest"
 	status_pb "google.golang.org/genproto/googleapis/rpc/status"
 	"google.golang.org/grpc"
 	"google.golang.org/grpc/codes"
 	"google.golang.org/grpc/status"
+	"google.golang.org/protobuf/proto"
+	"google.golang.org/protobuf/types/known/anypb"
 	"google.golang.org/protobuf/types/known/durationpb"
 	"google.golang.org/protobuf/types/known/emptypb"
 	"google.golang.org/protobuf/types/known/timestamppb"
+	"google.golang.org/protobuf/types/known/wrapperspb"
 )
 
 // ---------------------------------------------------------------------------
@@ -94,18 +98,37 @@ type outcome struct {
 	reply replyKind
 	nsa   time.Time
 	exec  *remoteworker.DesiredState_Executing
+	// sameDigest: the execute request is a new task for the action digest the
+	// worker reported in the request being answered.
+	sameDigest bool
 }
 
 type scriptedScheduler struct {
 	w       *world
-	actions int
+	actions int // distinct action digests handed out
+	tasks   int // tasks handed out
 }
 
-func (s *scriptedScheduler) newExecute(valid bool) *remoteworker.DesiredState_Executing {
+// newExecute builds the execute request of a new task. Tasks are told apart by
+// their serial number (carried in auxiliary_metadata and by the identity of
+// the request message), never by digest: with again != nil the new task is for
+// the very action the worker is reporting (the same uncacheable action handed
+// to the same worker twice in a row).
+func (s *scriptedScheduler) newExecute(valid bool, again *remoteexecution.Digest) *remoteworker.DesiredState_Executing {
 	t := s.w.t
-	s.actions++
+	s.tasks++
+	d := again
+	if d == nil {
+		s.actions++
+		d = &remoteexecution.Digest{Hash: fmt.Sprintf("%064x", s.actions), SizeBytes: int64(100 + s.actions)}
+	}
+	serial, err := anypb.New(wrapperspb.UInt32(uint32(s.tasks)))
+	if err != nil {
+		panic(simsync.HarnessError{Msg: err.Error()})
+	}
 	e := &remoteworker.DesiredState_Executing{
-		ActionDigest:       &remoteexecution.Digest{Hash: fmt.Sprintf("%064x", s.actions), SizeBytes: int64(100 + s.actions)},
+		ActionDigest:       d,
+		AuxiliaryMetadata:  []*anypb.Any{serial},
 		Action:             &remoteexecution.Action{Timeout: durationpb.New(time.Hour)},
 		InstanceNameSuffix: pick(t, []string{"", "sfx", "a/b"}),
 		DigestFunction:     remoteexecution.DigestFunction_SHA256,
@@ -193,11 +216,18 @@ func (s *scriptedScheduler) Synchronize(ctx context.Context, req *remoteworker.S
 		return nil, status.Error(pick(t, []codes.Code{codes.Unavailable, codes.Internal, codes.DeadlineExceeded}), "injected transport failure")
 	case outBadExecute:
 		out.reply = replyExecute
-		out.exec = s.newExecute(false)
+		out.exec = s.newExecute(false, nil)
 	case outUnknownState:
 	default:
 		if out.reply == replyExecute {
-			out.exec = s.newExecute(true)
+			// A new task may be for the action the worker is reporting
+			// (running or completed) or for one it ran earlier.
+			var again *remoteexecution.Digest
+			if snap.digest != nil && t.Bool(2, 5) {
+				again = proto.Clone(snap.digest).(*remoteexecution.Digest)
+				out.sameDigest = true
+			}
+			out.exec = s.newExecute(true, again)
 		}
 	}
 	resp := s.build(out)
